@@ -119,6 +119,12 @@ func (f *File) syncWithoutLocking() error {
 	}
 
 	if f.writeBuf != nil {
+		// Archiving reads the whole write buffer; continue at the current position afterwards
+		pos, err := f.writeBuf.Seek(0, io.SeekCurrent)
+		if err != nil {
+			return err
+		}
+
 		done := false
 		if _, err := f.writeOps.Update(
 			func() (config.FileConfig, error) {
@@ -191,6 +197,10 @@ func (f *File) syncWithoutLocking() error {
 			true,
 			true,
 		); err != nil {
+			return err
+		}
+
+		if _, err := f.writeBuf.Seek(pos, io.SeekStart); err != nil {
 			return err
 		}
 	}
